@@ -259,6 +259,18 @@ def rule_chr(c: Ctx) -> RuleResult:
                 break
         if not how:
             how = _origin_ord(c, f, call, arg)
+            if how and "None (" in how:
+                # some origin is None: the call must sit behind `arg is not None`
+                ok_nn = True
+                for n in cfg.owner(call):
+                    z = res.get(n.id)
+                    if z is None:
+                        continue
+                    z = expr_local(z, call, next((x for x in CFG.roots(n) if any(y is call for y in ast.walk(x))), n.ast), f.module.parents)
+                    if not (z.holds(f"{U(arg)} is None", False) or z.holds(f"{U(arg)} is not None", True)):
+                        ok_nn = False
+                if not ok_nn:
+                    how = ""
         if not how:
             how = _valid_code_flow(c, f, call, arg)
         if how:
@@ -632,6 +644,18 @@ def _origin_ord(c: Ctx, f: Func, call: ast.Call, arg: ast.AST, depth: int = 0) -
             return ""
         hows = []
         for d in ds:
+            if d.kind == "param" and c.internal_helper(f):
+                # a helper's parameter: the argument at every call site
+                sites = c.cg.callers.get(f, [])
+                if not sites or any(x.kind not in ("direct", "method") for x in sites):
+                    return ""
+                for x in sites:
+                    a_ = c.eff.arg_for_param(x, f, arg.id)
+                    h = _origin_ord(c, x.caller, x.node, a_, depth + 1) if a_ is not None else ""
+                    if not h:
+                        return ""
+                    hows.append(h)
+                continue
             if d.kind != "assign" or d.value is None:
                 return ""
             h = _origin_ord(c, f, call, d.value, depth + 1)
@@ -639,6 +663,11 @@ def _origin_ord(c: Ctx, f: Func, call: ast.Call, arg: ast.AST, depth: int = 0) -
                 return ""
             hows.append(h)
         return "every reaching definition: " + " / ".join(sorted(set(hows)))
+    if isinstance(arg, ast.Constant) and arg.value is None:
+        return "None (the conversion is guarded by an `is not None` test: checked at the chr site)"
+    if isinstance(arg, ast.IfExp):
+        a_, b_ = _origin_ord(c, f, call, arg.body, depth + 1), _origin_ord(c, f, call, arg.orelse, depth + 1)
+        return f"{a_} / {b_}" if a_ and b_ else ""
     return ""
 
 
